@@ -262,6 +262,46 @@ def _check_parsed(name, parsed, model, extra, net, origin):
                 _bad("msg:alert:alert_info", d)
 
 
+# ------------------------------------------------------------------ a coin whose header layout differs: Bitcoin Gold
+
+
+def _btg_header_bytes(h):
+    sol = bytes.fromhex(h["solution"])
+    return (h["version"].to_bytes(4, "little") + bytes.fromhex(h["prev"]) + bytes.fromhex(h["merkle"]) + h["height"].to_bytes(4, "little") +
+            b"\0" * 28 + h["time"].to_bytes(4, "little") + h["bits"].to_bytes(4, "little") + bytes.fromhex(h["nonce"]) +
+            refser.compact_size(len(sol)) + sol)
+
+
+def o_btg_headers(case):
+    """'headers' on the Bitcoin Gold network: its wire header is the 140-byte Equihash layout plus the solution for EVERY
+    height (the pre-fork 80-byte form only enters the block hash), so pack == that encoding and parse returns the fields"""
+    from pycoin.symbols.btg import network as BTG
+    hs = case["headers"]
+    ref = refser.compact_size(len(hs)) + b"".join(_btg_header_bytes(h) + b"\0" for h in hs)
+    objs = [BTG.block(h["version"], bytes.fromhex(h["prev"]), bytes.fromhex(h["merkle"]), h["time"], h["bits"], bytes.fromhex(h["nonce"]),
+                      h["height"], bytes.fromhex(h["solution"])) for h in hs]
+    packed = BTG.message.pack("headers", headers=[(o, 0) for o in objs])
+    if packed != ref:
+        _bad("msg:headers:btg:pack!=ref", "BTG pack('headers') of heights %s gives %d bytes, the wire encoding has %d" % (
+            [h["height"] for h in hs], len(packed), len(ref)))
+    got = BTG.message.parse("headers", ref)["headers"]
+    fields = [(g.version, bytes(g.previous_block_hash).hex(), bytes(g.merkle_root).hex(), g.height, g.timestamp, g.difficulty,
+               bytes(g.nonce).hex(), bytes(g.solution).hex(), c) for g, c in got]
+    want = [(h["version"], h["prev"], h["merkle"], h["height"], h["time"], h["bits"], h["nonce"], h["solution"], 0) for h in hs]
+    if fields != want:
+        _bad("msg:headers:btg:parse-fields", "BTG parse('headers') returns %r, sent %r" % (fields[:2], want[:2]))
+    return ["n=%d" % min(len(hs), 3)] + sorted({"height<fork" if h["height"] < 491407 else "height>=fork" for h in hs})
+
+
+def s_btg_headers():
+    h32 = st.binary(min_size=32, max_size=32).map(bytes.hex)
+    hdr = st.fixed_dictionaries({"version": u(U32), "prev": h32, "merkle": h32, "time": u(U32), "bits": u(U32), "nonce": h32,
+                                 "height": st.one_of(st.sampled_from([0, 1, 491406, 491407, 491408, 2**32 - 1]), st.integers(0, 10**6)),
+                                 "solution": st.one_of(st.just(""), st.binary(max_size=40).map(bytes.hex),
+                                                       st.sampled_from([100, 252, 253, 1344]).map(lambda n: "ab" * n))})
+    return st.fixed_dictionaries({"headers": st.lists(hdr, min_size=0, max_size=3)})
+
+
 def make_oracle(name):
     enc = refser.MESSAGE_ENCODERS[name]
     spec = SPEC[name]
@@ -555,3 +595,8 @@ for _n in _names:
     else:
         SUBCHECKS.append(SubCheck("msg_" + _n, make_oracle(_n), cases=make_empty_cases(_n), exhaustive=True, max_shards=1,
                                   rule=_n + ": message without fields: pack == b'' and parse(b'') == {} on both networks"))
+SUBCHECKS.append(SubCheck("msg_headers_btg", o_btg_headers, strategy=s_btg_headers, budget=(300, 10000), max_shards=2,
+                          nontrivial=lambda c, l: "height<fork" in l,
+                          rule="'headers' on the Bitcoin Gold network (the one shipped coin whose header layout differs): 0-3 headers with "
+                               "heights around the fork height 491407 and solutions of 0-1344 bytes; pack == the 140-byte Equihash layout + "
+                               "solution for every height, parse(reference bytes) returns the fields; non-trivial = a height below the fork"))
